@@ -42,9 +42,9 @@ def run(ctx):
         ctx.report("$dnsrewrite=%r: spec %s, code ok=%s %s %s" % (m["value"], "error" if m["expected_error"] else m["expected"], m["ok"], m["got"], m["panic"]),
                    {"reexec": ["replay-rwvalue"], "input": [m["case"]]}, {"cause": cause})
     trace = os.path.join(ctx.work, "rv-trace.ndjson")
-    d = ctx.vh(["drive-rwvalue", "n=%d" % (40000 if quick else 600000), "out=" + trace], timeout=3000)
+    d = ctx.vh(["drive-rwvalue", "n=%d" % (40000 if quick else 3000000), "out=" + trace], timeout=3000)
     if d["panics"] or d["nondeterministic"]:
-        log = open(os.path.join(ctx.work, "vh-drive-rwvalue-n=%d.log" % (40000 if quick else 600000))).read()
+        log = open(os.path.join(ctx.work, "vh-drive-rwvalue-n=%d.log" % (40000 if quick else 3000000))).read()
         for line in log.splitlines():
             if line.startswith("PANIC") or line.startswith("NONDETERMINISTIC"):
                 ctx.report(line[:300], {"reexec": ["drive-rwvalue"], "line": line}, {"cause": line.split()[0].lower()})
